@@ -225,7 +225,57 @@ func (b *backend) ConsensusParams(ctx context.Context, height *int64) (*ctypes.R
 	return res, nil
 }
 
-// TxSearch is relayed unverified by the verifying client: the real rpc/core handler answers
+var searchMuts = []mutInfo{
+	{"Txs.Tx", "bound"}, {"Txs.Tx+Proof.Data+Hash", "bound"}, {"Txs.Hash", "bound"}, {"Txs.Height", "bound"}, {"Txs.Proof.RootHash", "bound"},
+	{"Txs.Proof.Data", "bound"}, {"Txs:nil", "bound"}, {"Txs.Index", "bound"}, {"Txs.TxResult.Code", "free"}, {"TotalCount", "free"},
+	{"Txs:drop", "free"}, {"Txs.Proof.Proof.Aunts", "proof"},
+}
+
+func mutTxSearch(c *chain, res *ctypes.ResultTxSearch, mut string, k int) {
+	if mut == "TotalCount" {
+		res.TotalCount += 1 + k%3
+		return
+	}
+	if len(res.Txs) == 0 || mut == "none" || mut == "" {
+		return
+	}
+	i := k % len(res.Txs)
+	t := res.Txs[i]
+	switch mut {
+	case "Txs.Tx":
+		t.Tx = types.Tx(flip(t.Tx, k))
+	case "Txs.Tx+Proof.Data+Hash":
+		t.Tx = types.Tx(flip(t.Tx, k))
+		t.Proof.Data = t.Tx
+		t.Hash = t.Tx.Hash()
+	case "Txs.Hash":
+		t.Hash = flip(t.Hash, k)
+	case "Txs.Height":
+		if k%2 == 0 && t.Height > 1 {
+			t.Height--
+		} else {
+			t.Height++
+		}
+	case "Txs.Proof.RootHash":
+		t.Proof.RootHash = flip(t.Proof.RootHash, k)
+	case "Txs.Proof.Data":
+		t.Proof.Data = types.Tx(flip(t.Proof.Data, k))
+	case "Txs:nil":
+		res.Txs[i] = nil
+	case "Txs.Index":
+		t.Index += uint32(1 + k%3)
+	case "Txs.TxResult.Code":
+		t.TxResult.Code += uint32(1 + k%3)
+	case "Txs:drop":
+		res.Txs = append(append([]*ctypes.ResultTx{}, res.Txs[:i]...), res.Txs[i+1:]...)
+	case "Txs.Proof.Proof.Aunts":
+		t.Proof.Proof.Aunts = append(t.Proof.Proof.Aunts, make([]byte, 32))
+	default:
+		panic("unknown tx-search mutation " + mut)
+	}
+}
+
+// TxSearch: the real rpc/core handler answers (a lying node changes one field of the answer)
 func (b *backend) TxSearch(ctx context.Context, query string, prove bool, page, perPage *int, orderBy string) (*ctypes.ResultTxSearch, error) {
 	hon, err := core.TxSearch(rctx, query, prove, page, perPage, orderBy)
 	if err != nil {
@@ -233,6 +283,12 @@ func (b *backend) TxSearch(ctx context.Context, query string, prove bool, page, 
 	}
 	res := new(ctypes.ResultTxSearch)
 	roundTrip(hon, res)
+	if b.p != nil {
+		mutTxSearch(b.c, res, b.p.mut, b.p.marg)
+	}
+	if b.p != nil {
+		b.p.served = res
+	}
 	return res, nil
 }
 
